@@ -235,7 +235,7 @@ def main() -> int:
     ck.sample({'argv': cases[3][0]})
     ck.sample({'argv': cases[len(cases) // 2][0]})
     ck.bound('FP', 'all IEEE-754 doubles as attribute value of the serializer hook (complete for that obligation)')
-    ck.bound('CLI', f'{runs} invocations: 9 valid and 10 invalid property texts (every error class, INF/NAN constants, 1e400, unbounded and bounded patterns, annotations) x -p/--property x none/-o json/--output json; 8 files x 2; missing file; property text without -p')
+    ck.bound('CLI', f'{runs} invocations: {len(VALID_PROPS)} valid and {len(INVALID_PROPS)} invalid property texts (every error class, INF/NAN constants, 1e400, 320-digit integers, names and strings spelled NaN / Infinity / null, unbounded and bounded patterns, annotations) x -p/--property x none/-o json/--output json; 8 files x 2; missing file; property text without -p')
     ck.coverage['evaluations'] = runs + sub
     ck.coverage['distinct_nontrivial'] = runs
     ck.coverage['rule'] = 'one evaluation = one invocation of the real CLI entry point with distinct argv'
